@@ -129,6 +129,21 @@ def always_resets(facts, fn, memo, depth=0):
             continue
         if always_resets(facts, tgt, memo, depth + 1):
             cut.add(bi)
+    # `*self = Self::new(..)` (or `self.0 = Inner::new(..)` in a wrapper): the whole context replaced by a fresh one
+    for bi in body.reach:
+        for st_ in body.blocks[bi]["s"]:
+            if st_[0] != "A" or st_[1][0] != 1 or len(st_[1]) < 2 or st_[1][1] != "*":
+                continue
+            if not all(e == "*" or (isinstance(e, list) and e[0] == "f") for e in st_[1][1:]) or len(st_[1]) > 3:
+                continue
+            if st_[2][0] != "use":
+                continue
+            src = operand_local(st_[2][1])
+            d = body.single_def(src) if src is not None else None
+            if d and d[2] == "call" and d[3][1].get("l"):
+                tgt = facts.fns.get(d[3][1]["id"])
+                if tgt is not None and tgt["item"] == "new" and tgt.get("self_adt"):
+                    cut.add(bi)
     # reachability of a return avoiding cut blocks
     seen = set()
     st = [0]
